@@ -856,19 +856,32 @@ where
             return Err(ZiporaError::not_found("invalid record ID"));
         }
 
-        // Get blob ID from node mapping
-        let _blob_id = *self.node_to_blob_map.get(&(node_id as usize))
-            .ok_or_else(|| ZiporaError::not_found("node mapping not found"))?;
+        // The record's own blob, and the blob the key currently resolves to (the LATEST record
+        // stored under that key)
+        let blob_id = self.record_to_blob_map.get(id as usize).copied().unwrap_or(usize::MAX);
+        let latest_blob = self.node_to_blob_map.get(&(node_id as usize)).copied();
 
         // Remove from blob store (only allowed if not finalized, since finalized stores are read-only)
         if self.finalized {
             return Err(ZiporaError::invalid_operation("Cannot remove from finalized store"));
         }
 
-        // Remove from trie (reconstruct key first)
-        let key = self.trie.restore_string(node_id as u32)
-            .ok_or_else(|| ZiporaError::not_found("Could not restore key from node ID"))?;
-        self.trie.remove(&key)?;
+        // The key and its node -> blob mapping belong to the latest record stored under the key:
+        // they go only when THIS record is that one.  An older record of an overwritten key goes
+        // away alone and the newer record stays reachable by key.
+        let mut key: Vec<u8> = Vec::new();
+        if latest_blob == Some(blob_id) {
+            key = self.trie.restore_string(node_id as u32)
+                .ok_or_else(|| ZiporaError::not_found("Could not restore key from node ID"))?;
+            self.trie.remove(&key)?;
+            // drop the mapping even when the trie strategy keeps the key (LOUDS): the removed
+            // record must not be readable by key any more
+            self.node_to_blob_map.remove(&(node_id as usize));
+            if self.config.key_cache_size > 0 {
+                self.key_cache.remove(&key);
+            }
+        }
+        self.temp_blob_storage.remove(&blob_id);
 
         // Mark record as removed
         if (id as usize) < self.record_to_node_map.len() {
@@ -876,11 +889,6 @@ where
         }
         if (id as usize) < self.record_to_blob_map.len() {
             self.record_to_blob_map[id as usize] = usize::MAX;
-        }
-
-        // Remove from cache if present
-        if self.config.key_cache_size > 0 {
-            self.key_cache.remove(&key);
         }
 
         // Update statistics
@@ -1367,21 +1375,38 @@ where
     where
         I: IntoIterator<Item = (Vec<u8>, Vec<u8>)>,
     {
+        // all-or-nothing: an entry refused in the middle of the batch must not leave the
+        // entries before it stored under ids the caller never receives.  For the rollback each
+        // stored entry remembers which blob its key resolved to before.
         let mut record_ids = Vec::new();
-        
+        let mut stored: Vec<(RecordId, Vec<u8>, Option<usize>)> = Vec::new();
+
         for (key, data) in entries {
-            let record_id = self.put_with_key(&key, &data)?;
-            record_ids.push(record_id);
+            let previous = self.trie.lookup_node_id(&key)
+                .and_then(|node| self.node_to_blob_map.get(&(node as usize)).copied());
+            match self.put_with_key(&key, &data) {
+                Ok(record_id) => {
+                    record_ids.push(record_id);
+                    stored.push((record_id, key, previous));
+                }
+                Err(e) => {
+                    for (id, key, previous) in stored.into_iter().rev() {
+                        let _ = self.remove(id);
+                        if let Some(blob_id) = previous {
+                            // the key resolved to an older record before: point it there again
+                            if let Ok(node) = self.trie.insert_and_get_node_id(&key) {
+                                self.node_to_blob_map.insert(node as usize, blob_id);
+                            }
+                        }
+                    }
+                    return Err(e);
+                }
+            }
         }
-        
+
         Ok(record_ids)
     }
 
-    /// Get all keys stored in the trie
-    ///
-    /// # Returns
-    /// * `Ok(Vec<Vec<u8>>)` - All keys in lexicographic order
-    /// * `Err(ZiporaError)` - If key enumeration fails
     pub fn keys(&self) -> Result<Vec<Vec<u8>>> {
         let mut keys = self.trie.keys();
         keys.sort(); // Ensure lexicographic order
